@@ -18,7 +18,7 @@ LEVEL_NOTE = 'trusted: shim mount table / psutil substitute; ownership checks of
 RULE = ('.Trash state (8, incl. mode 2777 and 0700) x command (put, list, restore+reply, empty, empty 0, rm *, rm exact, list --all-users and empty --all-users with three accounts in /etc/passwd, list --size, list --files, put with .Trash-uid blocked by a regular file) x volumes (v1 only; v1 insecure + v2 secure; a secure v0 listed before v1) x uid '
         '(0, 1000); non-trivial = the command examined the volume (stat of .Trash seen in the trace); distinct = outcome class x state x command')
 STATES = ['sticky', 'nonsticky', 'nonsticky-setgid', 'nonsticky-private', 'symlink-sticky', 'symlink-nonsticky', 'file', 'absent']
-CMDS = ['put', 'list', 'restore', 'empty', 'empty0', 'rm-star', 'rm-exact', 'put-then-insecure', 'list-all-users', 'empty-all-users', 'list-size', 'list-files', 'put-alt-blocked']
+CMDS = ['put', 'list', 'restore', 'empty', 'empty0', 'rm-star', 'rm-exact', 'put-then-insecure', 'list-all-users', 'empty-all-users', 'list-size', 'list-files', 'put-alt-blocked', 'restore-empty-td']
 VOLS = ['v1', 'v1+v2', 'v1-sticky-topdir', 'v0+v1']
 
 
@@ -160,6 +160,7 @@ def run_case(c):
                    'rm-exact': (['trash-rm', '/mnt/v1/w/one-v1'], None), 'put-then-insecure': (None, None),
                    'list-size': (['trash-list', '--size'], None), 'list-files': (['trash-list', '--files'], None),
                    'put-alt-blocked': (['trash-put', 'new'], None),
+                   'restore-empty-td': (['trash-restore', '--trash-dir', '', '/'], '0\n'),          # an empty option value (an unset shell variable): like no option at all
                    'list-all-users': (['trash-list', '--all-users'], None), 'empty-all-users': (['trash-empty', '--all-users'], None)}[cmd]
     if cmd == 'put-then-insecure':
         return run_put_then_insecure(c, W, uid, td)
@@ -169,7 +170,7 @@ def run_case(c):
         after = sb.snapshot()
     secure = st == 'sticky'
     detail = {'argv': argv, 'exit': r.exit, 'out': r.out[-400:], 'err': r.err[-400:]}
-    if cmd == 'restore' and ('myalt-x1' not in r.out or (c['vols'] == 'v1+v2' and 'one-v2' not in r.out)):
+    if cmd in ('restore', 'restore-empty-td') and ('myalt-x1' not in r.out or (c['vols'] == 'v1+v2' and 'one-v2' not in r.out)):
         return {'verdict': 'viol', 'sig': 'C08|restore-does-not-offer-entries-of-usable-trash-dirs|st=%s' % st, 'klass': 'usable-not-offered',
                 'detail': {'out': r.out[-400:], 'err': r.err[-300:]}}
     if cmd in ('list', 'list-all-users', 'list-size', 'list-files') and 'myalt-x1' not in r.out:
@@ -193,7 +194,7 @@ def run_case(c):
             changed = sorted(k for k in set(sub_b) | set(sub_a) if sub_b.get(k) != sub_a.get(k))
             return {'verdict': 'viol', 'sig': 'C08|insecure-top-modified|cmd=%s|st=%s' % (cmd, 'symlink' if 'symlink' in st else st),
                     'klass': 'insecure-modified', 'nontrivial': 'mod|' + dims, 'detail': dict(detail, changed=changed[:8])}
-        if mentions and cmd in ('list', 'restore', 'list-all-users', 'list-size', 'list-files'):
+        if mentions and cmd in ('list', 'restore', 'restore-empty-td', 'list-all-users', 'list-size', 'list-files'):
             return {'verdict': 'viol', 'sig': 'C08|insecure-top-shown|cmd=%s|st=%s' % (cmd, 'symlink' if 'symlink' in st else st),
                     'klass': 'insecure-shown', 'nontrivial': 'shown|' + dims, 'detail': detail}
         if cmd == 'put':
@@ -218,7 +219,7 @@ def run_case(c):
         return {'verdict': 'ok', 'klass': 'insecure:ignored', 'nontrivial': examined and ('ignored|' + dims), 'detail': detail}
     # secure control group: the directory must be used
     used = {'put': bool(world.under(after, td + '/files/new')), 'put-alt-blocked': bool(world.under(after, td + '/files/new')),
-            'list': mentions, 'list-size': mentions, 'list-files': mentions, 'restore': mentions,
+            'list': mentions, 'list-size': mentions, 'list-files': mentions, 'restore': mentions, 'restore-empty-td': mentions,
             'empty': not world.under(after, td + '/files/one'), 'empty0': not world.under(after, td + '/files/one'),
             'rm-star': not world.under(after, td + '/files/one'), 'rm-exact': not world.under(after, td + '/files/one'),
             'list-all-users': 'one-v1b' in r.out and '/mnt/v1/w/one-v1\n' in r.out,
